@@ -9,6 +9,8 @@ values, calendars) x values, all executed on the real pattern classes:
             expansion is scanned as delimited; plus the single-field text patterns x every culture
   custom    grammar.custom_patterns (<= k distinct fields, every width variant, five delimiter styles) x one
             representative of every computed culture class (+ invariant) x template configurations: O1, O2, O3
+  fraction-digits  dense sweep of sub-second values (first 20,000 units and a stride of 9,973 over the whole range) through
+            the fraction-carrying round-trip patterns of Duration / LocalTime / LocalDateTime / Instant
   history   ONE pattern object used for a sequence of parses and formats in which every ordered pair of operations
             occurs consecutively (sequential and interleaved), every answer compared with the answer of a freshly
             created pattern that has done nothing else
@@ -24,8 +26,9 @@ Oracles (DESIGN section 4, C07):
 from __future__ import annotations
 
 import functools
+import re
 
-from pyoda_time import AnnualDate, CalendarSystem, LocalDate
+from pyoda_time import CalendarSystem, LocalDate
 from pyoda_time._compatibility._culture_info import CultureInfo
 from pyoda_time._compatibility._culture_types import CultureTypes
 from pyoda_time.text import (AnnualDatePattern, DurationPattern, InstantPattern, InvalidPatternError, LocalDatePattern,
@@ -45,8 +48,6 @@ DEFAULT_TMPL = {"time": (0, 0, 0, 0), "date": ("ISO", 2000, 1, 1), "datetime": (
                 "instant": ("ISO", 2000, 1, 1, 0, 0, 0, 0), "annual": (1, 1), "offset": None, "duration": None}
 
 # template configurations: (label, how to derive the pattern, template tuple or a calendar id)
-ALT_TIME = (13, 45, 56, 500_000_000)   # fraction representable at every F/f width
-ALT_DATE = ("ISO", 1985, 7, 23)
 TEMPLATE_CALENDARS = ("Hebrew Civil", "Hijri Civil-Base15", "Coptic", "Persian Simple", "Julian", "Badi", "Um Al Qura")
 
 
@@ -99,23 +100,27 @@ def culture_classes(ctx):
 # configurations and values
 # ---------------------------------------------------------------------------------------------------------------
 
+# non-default template values: deliberately extreme (leap day, day 31, last second), so that absent fields take values
+# that are valid only together with some values of the present fields
+TEMPLATE_CONFIGS = {
+    "time": (("tmpl=23:59:59.5", (23, 59, 59, 500_000_000)),),
+    "date": (("tmpl=2024-02-29", ("ISO", 2024, 2, 29)), ("tmpl=1999-12-31", ("ISO", 1999, 12, 31))),
+    "datetime": (("tmpl=2024-02-29T23:59:59.5", ("ISO", 2024, 2, 29, 23, 59, 59, 500_000_000)),),
+    "instant": (("tmpl=1999-12-31T23:59:59.5Z", ("ISO", 1999, 12, 31, 23, 59, 59, 500_000_000)),),
+    "annual": (("tmpl=01-31", (1, 31)), ("tmpl=02-29", (2, 29))),
+}
+
+
 def configs(kind, tier):
     """[(label, template tuple)] - label 'default' means the pattern exactly as created."""
     out = [("default", DEFAULT_TMPL[kind])]
-    if kind == "time":
-        out.append(("tmpl=13:45:56.5", ALT_TIME))
-    elif kind == "date":
-        out.append(("tmpl=1985-07-23", ALT_DATE))
+    out += list(TEMPLATE_CONFIGS.get(kind, ()))
+    if kind == "date":
         for cid in TEMPLATE_CALENDARS:
             out.append(("cal=" + cid, None))
     elif kind == "datetime":
-        out.append(("tmpl=1985-07-23T13:45:56.123456789", ALT_DATE + ALT_TIME))
         out.append(("cal=Hebrew Civil", None))
         out.append(("cal=Coptic", None))
-    elif kind == "instant":
-        out.append(("tmpl=1985-07-23T13:45:56.123456789Z", ALT_DATE + ALT_TIME))
-    elif kind == "annual":
-        out.append(("tmpl=07-23", (7, 23)))
     if kind in ("date", "datetime", "instant"):
         out.append(("2dy=79", DEFAULT_TMPL[kind]))      # with_two_digit_year_max(79); only paired with 'yy' patterns
     return out
@@ -133,17 +138,8 @@ def apply_config(kind, pat, label):
         d = LocalDate(2000, 1, 1).with_calendar(cal)
         t = (cal.id, d.year, d.month, d.day)
         return p2, (t if kind == "date" else t + (0, 0, 0, 0))
-    if kind == "time":
-        return pat.with_template_value(T.to_lib("time", ALT_TIME)), ALT_TIME
-    if kind == "date":
-        return pat.with_template_value(T.to_lib("date", ALT_DATE)), ALT_DATE
-    if kind == "datetime":
-        return pat.with_template_value(T.to_lib("datetime", ALT_DATE + ALT_TIME)), ALT_DATE + ALT_TIME
-    if kind == "instant":
-        return pat.with_template_value(T.to_lib("instant", ALT_DATE + ALT_TIME)), ALT_DATE + ALT_TIME
-    if kind == "annual":
-        return pat.with_template_value(AnnualDate(7, 23)), (7, 23)
-    raise AssertionError((kind, label))
+    tmpl = dict(TEMPLATE_CONFIGS[kind])[label]
+    return pat.with_template_value(T.to_lib(kind, tmpl)), tmpl
 
 
 @functools.lru_cache(maxsize=None)
@@ -799,6 +795,65 @@ def builtin_worker(task):
     return acc, hacc
 
 
+
+# ---------------------------------------------------------------------------------------------------------------
+# fraction digits: dense sweep of sub-second values through the patterns with a fraction field (digit-dependent
+# defects of the fraction scanner / renderer are invisible to a handful of boundary fractions)
+# ---------------------------------------------------------------------------------------------------------------
+
+FRACTION_PATTERNS = (
+    ("duration", "builtin", "roundtrip", 1), ("duration", "builtin", "json_roundtrip", 1),
+    ("datetime", "builtin", "full_roundtrip", 1), ("time", "custom", "HH:mm:ss.FFFFFF", 1000), ("time", "custom", "ss'~'ffffff", 1000),
+    ("time", "custom", "HH:mm:ss.FFF", 1_000_000), ("duration", "custom", "S.FFFFFFFFF", 1), ("instant", "custom", "uuuu-MM-ddTHH:mm:ss.FFFFFFF'Z'", 100),
+)
+FRACTION_STRIDE = 9973
+
+
+def fraction_worker(task):
+    pi, lo, hi = task
+    kind, how, name, unit = FRACTION_PATTERNS[pi]
+    acc = Acc()
+    try:
+        pat = getattr(KCLS[kind], name) if how == "builtin" else KCLS[kind].create(name, CultureInfo.invariant_culture)
+    except AttributeError:
+        acc.degrade("built-in pattern %s.%s not present" % (KCLS[kind].__name__, name))
+        return acc
+    except Exception as e:  # noqa: BLE001
+        acc.lib_exception("C07/%s/fraction-digits/create" % kind, e, {"pattern": name})
+        return acc
+    top = 10**9 // unit
+    for i in range(lo, hi):
+        n = i if i < 20_000 else ((i - 20_000) * FRACTION_STRIDE) % top        # first 20,000 units, then a stride over the whole range
+        ns = (n % top) * unit
+        if kind == "duration":
+            v = (T.NS_D + T.NS_H + ns) * (-1 if (i % 2 and how == "builtin") else 1)     # the built-ins carry a sign
+        elif kind == "time":
+            v = (12, 34, 56, ns) if "HH" in name else (0, 0, 56, ns)
+        else:
+            v = ("ISO", 2024, 2, 29, 12, 34, 56, ns)
+        acc.count(states=1, transitions=2, evaluations=1)
+        try:
+            lv = T.to_lib(kind, v)
+            text = pat.format(lv)
+            r = pat.parse(text)
+        except Exception as e:  # noqa: BLE001
+            if exc_origin(e) == "harness":
+                raise
+            acc.violation("C07/%s/fraction-digits/raises-%s/%s" % (kind, type(e).__name__, name), "%s: round trip of %s raised %s: %s" % (name, v, type(e).__name__, str(e)[:160]),
+                          {"kind": kind, "pattern": name, "value": v})
+            continue
+        if not r.success or r.value != lv:
+            m = re.search(r"[.~](\d+)\D*$", text) if kind != "datetime" else re.search(r"\.(\d+)", text)
+            digits = len(m.group(1)) if m else 0
+            acc.violation("C07/%s/fraction-digits/%s/digits=%d" % (kind, name, digits),
+                          "%s: %s -> %r -> %s" % (name, v, text, T.from_lib(kind, r.value) if r.success else "failure"),
+                          {"kind": kind, "pattern": name, "value": v, "text": text})
+            continue
+        acc.count(nontrivial=1)
+    acc.outcome("fraction digits recovered exactly", acc.nontrivial)
+    return acc
+
+
 # ---------------------------------------------------------------------------------------------------------------
 # driver
 # ---------------------------------------------------------------------------------------------------------------
@@ -849,6 +904,16 @@ def run(ctx):
         for acc, hacc in pmap(builtin_worker, BUILTINS):
             ctx.merge_part("builtin", acc)
             ctx.merge_part("history", hacc)
+    if not only or "fraction-digits" in only:
+        total = 20_000 + 10**9 // FRACTION_STRIDE // (1 if tier == "thorough" else 2)
+        tasks = []
+        for pi, (_, _, _, unit) in enumerate(FRACTION_PATTERNS):
+            n = min(total, 20_000 + 10**9 // unit // FRACTION_STRIDE + 1) if unit > 1 else total
+            n = min(n, 10**9 // unit)
+            for lo in range(0, n, 20_000):
+                tasks.append((pi, lo, min(n, lo + 20_000)))
+        for acc in pmap(fraction_worker, rotate(tasks, ctx.seed)):
+            ctx.merge_part("fraction-digits", acc)
     if not only or "standard" in only:
         chunks = [(tuple(names[i:i + 13]), tier) for i in range(0, len(names), 13)]
         for acc in pmap(standard_worker, rotate(chunks, ctx.seed)):
